@@ -42,6 +42,10 @@ func dbErrKind(err error) string {
 		return "tableAlreadyExist"
 	case errors.Is(err, storage.ErrColCountMismatch):
 		return "colCountMismatch"
+	case errors.Is(err, storage.ErrFieldNotFound):
+		return "fieldNotFound"
+	case errors.Is(err, storage.ErrFieldAmbiguous):
+		return "fieldAmbiguous"
 	case errors.Is(err, storage.ErrTypeMismatch):
 		return "typeMismatch"
 	case errors.Is(err, storage.ErrIntOutOfRange):
@@ -1175,6 +1179,17 @@ func runFailures(cfg *config, id int, r *hx.Rng) {
 			name := fmt.Sprintf("big%d", s)
 			d.stmt("CREATE TABLE " + name + " (a int, b varchar(99999999999))")
 			d.selectAll(name)
+		case 7: // column names the table does not have, or named twice: refused, nothing stored under a wrong name
+			d.stmt("INSERT INTO t1 (a, nosuch) VALUES (1, 'x')")
+			d.stmt("INSERT INTO t1 (nosuch) VALUES (1)")
+			d.stmt("INSERT INTO t1 (a, a) VALUES (1, 2)")
+			d.stmt("INSERT INTO t1 (A) VALUES (1)")
+			d.stmt("UPDATE t1 SET nosuch = 1")
+			d.stmt("UPDATE t1 SET nosuch = 1 WHERE a = 999999")
+			d.stmt("UPDATE t1 SET a = 1, a = 2")
+			d.stmt(fmt.Sprintf("CREATE TABLE dup%d (a int, a int)", s))
+			d.selectAll(fmt.Sprintf("dup%d", s))
+			d.stmt(fmt.Sprintf("CREATE TABLE dup%d (a int, b int, c varchar(9), b boolean)", s))
 		default:
 			d.stmt("INSERT INTO u1 VALUES (1), (2), ('three'), (4)")
 			d.stmt("INSERT INTO u1 (x) VALUES (1, 2)")
